@@ -121,32 +121,7 @@ def make_event(tr):
 
 
 def factor_event(n):
-    """factor(n) - asked a second time after the caller has edited the table it was given the first time (and, for the float
-    flavour of the same number, after the int flavour): the table of n is a function of n, not of what earlier callers did"""
-    ev = _factor_event(n)
-    if n % 3 == 0 or n < 40:
-        try:
-            from mathy_core.util import factor, factor_add_terms_ex
-            from mathy_core.expressions import ConstantExpression, MultiplyExpression, VariableExpression
-            d = factor(n)
-            if isinstance(d, dict):
-                for k in list(d)[:2]:
-                    del d[k]
-                d[n + 1] = 99
-            from mathy_core.util import get_term_ex
-            f = factor_add_terms_ex(get_term_ex(MultiplyExpression(ConstantExpression(n), VariableExpression("y"))), get_term_ex(MultiplyExpression(ConstantExpression(7 * n), VariableExpression("y"))))
-            if f is not False and f is not None:
-                for tbl in (f.all_left, f.all_right):
-                    for k in list(tbl)[:1]:
-                        del tbl[k]
-            factor(float(n))
-        except BaseException:  # noqa
-            pass
-        again = _factor_event(n)
-        if again != ev:
-            again["again"] = True
-            return again
-    return ev
+    return _factor_event(n)
 
 
 def _factor_event(n):
@@ -311,7 +286,7 @@ def run(ctx, cases=None):
             a = e.get("args") or e["text"]
             desc, case, key = "%s %s" % (e["typ"], a), {"typ": e["typ"], "args": e.get("args"), "text": e.get("text")}, str(e["want"])
         elif e["typ"] == "factor":
-            desc, case, key = "factor(%d)%s" % (e["n"], " asked again after the caller edited the first table" if e.get("again") else ""), {"typ": "factor", "n": e["n"]}, "n"
+            desc, case, key = "factor(%d)%s" % (e["n"], ""), {"typ": "factor", "n": e["n"]}, "n"
         elif e["typ"] == "like":
             desc, case, key = "terms_are_like(%s, %s)" % (e["a"], e["b"]), {"typ": "like", "a": e["a"], "b": e["b"]}, "%s|%s" % (e["a"], e["b"])
         else:
